@@ -637,8 +637,15 @@ func RenderHistory(r *Rand, h *XHistory, plain bool, encrypt func(num uint32, ge
 					rows[n] = row
 				}
 			}
-			data := append(head.Bytes(), body.Bytes()...)
-			dict := XDict{"Type": XName("ObjStm"), "N": int64(len(members)), "First": int64(head.Len())}
+			hb := head.Bytes()
+			if bb := body.Bytes(); !plain && len(bb) > 0 && strings.IndexByte("<[(/", bb[0]) >= 0 && r.Chance(1, 3) {
+				// no white space between the last offset and a first member
+				// which starts with a delimiter
+				hb = bytes.TrimRight(hb, " \t\r\n\x0c\x00")
+				info.Features = append(info.Features, "object-stream-header-touches-first-member")
+			}
+			data := append(append([]byte{}, hb...), body.Bytes()...)
+			dict := XDict{"Type": XName("ObjStm"), "N": int64(len(members)), "First": int64(len(hb))}
 			if r.Bool() {
 				data = Deflate(data)
 				dict["Filter"] = XName("FlateDecode")
